@@ -491,9 +491,28 @@ def stores_in(fn, e):
             yield n[2]
 
 
+def _helpers_of_writers(prog):
+    """static functions all of whose callers are the listed accessors (a block of core_init moved into a helper)"""
+    callers = {}
+    for fn in prog.all:
+        for el in fn.all_elements():
+            for c in ir.calls_in(fn, el.e):
+                if isinstance(c[1], str):
+                    g = prog.get(c[1], near=fn)
+                    if g is not None:
+                        callers.setdefault(g.name, set()).add(fn.name)
+    out = set()
+    for fn in prog.all:
+        cs = callers.get(fn.name)
+        if fn.static and cs and cs <= set(CTX_FIELD_WRITERS):
+            out.add(fn.name)
+    return out
+
+
 def rule_ctx_writers(ctx, prog, chk):
     n = 0
     per_fn = {}
+    helpers = _helpers_of_writers(prog)
     for fn in lib_functions(prog):
         for el in fn.all_elements():
             for lhs in stores_in(fn, el.e):
@@ -514,7 +533,7 @@ def rule_ctx_writers(ctx, prog, chk):
                     continue
                 n += 1
                 proto = any(m in xcfg.PROTO_MACROS for m, _ in el.ms)
-                allowed = proto or fn.name in CTX_FIELD_WRITERS
+                allowed = proto or fn.name in CTX_FIELD_WRITERS or fn.name in helpers
                 per_fn.setdefault(fn, []).append((el.line, field, allowed))
             # address of a protocol field escaping
             for nd in ir.walk(fn, el.e):
@@ -522,7 +541,7 @@ def rule_ctx_writers(ctx, prog, chk):
                     x = ir.strip_casts(nd[2])
                     if isinstance(x, list) and x[0] == "m" and x[4] in xcfg.CTX_RECS and x[2] in ("code", "caught", "last"):
                         proto = any(m in xcfg.PROTO_MACROS for m, _ in el.ms)
-                        if not proto and fn.name not in CTX_FIELD_WRITERS:
+                        if not proto and fn.name not in CTX_FIELD_WRITERS and fn.name not in helpers:
                             per_fn.setdefault(fn, []).append((el.line, "&" + x[2], False))
     for fn, items in per_fn.items():
         bad = [(l, f) for l, f, a in items if not a]
